@@ -75,7 +75,7 @@ Section Interp.
         | PDict kvs =>
             do l <- mapM (fun kv => match lookup_id m (fst kv) with
                                     | Some (i, n, t') => do c <- ensure_cbor (snd kv); do v <- from_cbor f t' c; Ok (i, n, v)
-                                    | None => if emb then Raise ValueError (* simplified here *) else Raise TypeError (* F5c *)
+                                    | None => Raise ValueError
                                     end) kvs;
             Ok (VKV l)
         | _ => Raise ValueError end
@@ -91,7 +91,7 @@ Section Interp.
                      do vs <- mapM (fun x => do c <- ensure_cbor x; from_cbor f e c) l'; Ok (VList vs)
         | _ => Raise ValueError end
     | TBitfield bit n => do p <- dec b;
-        match p with PInt _ | PBool _ => Ok (VAtom p) (* simplified *) | _ => Raise TypeError (* F5b *) end
+        match p with PInt _ | PBool _ => Ok (VAtom p) (* simplified *) | _ => Raise ValueError end
     | TTag n _ inner => do p <- dec b;
         match p with
         | PTag t v => if t =? n then do c <- enc v; do x <- from_cbor f inner c; Ok (VTag n x) else Raise SUITError
@@ -103,6 +103,68 @@ Section Interp.
   Definition clean {A} (r : res A) : Prop :=
     match r with Raise IndexError | Raise TypeError => False | _ => True end.
 End Interp.
+
+
+(* ---- C17 on the skeleton: no internal error for ANY decoder / encoder / environment ---- *)
+Section Clean.
+  Variable dec : list Z -> res py.
+  Variable enc : py -> res (list Z).
+  Variable env : string -> option ty.
+
+  Lemma bind_clean {A B} (x : res A) (f : A -> res B) :
+    clean x -> (forall a, clean (f a)) -> clean (bind x f).
+  Proof. destruct x as [a|e]; cbn; intros Hx Hf; [apply Hf | exact Hx]. Qed.
+
+  Lemma mapM_clean {A B} (f : A -> res B) l : (forall a, clean (f a)) -> clean (mapM f l).
+  Proof.
+    intros Hf. induction l as [|x l IH]; cbn [mapM]; [exact I|].
+    apply bind_clean; [apply Hf|]. intros y. apply bind_clean; [exact IH|]. intros ys. exact I.
+  Qed.
+
+  Lemma first_ok_clean {A} (fs : list (unit -> res A)) i :
+    Forall (fun f => clean (f tt)) fs -> clean (first_ok fs i).
+  Proof.
+    revert i. induction fs as [|f fs IH]; intros i HF; cbn [first_ok]; [exact I|].
+    inversion HF as [|? ? Hf Hr]; subst.
+    destruct (f tt) as [a|[]]; cbn in *; try exact I; try contradiction. apply IH; assumption.
+  Qed.
+
+  Lemma ensure_clean p : (forall q, clean (enc q)) -> clean (ensure_cbor enc p).
+  Proof. intros He. destruct p; cbn; try apply He; exact I. Qed.
+
+  Hypothesis dec_clean : forall b, clean (dec b).   (* deserialize_cbor wraps every exception into ValueError *)
+  Hypothesis enc_clean : forall p, clean (enc p).   (* serialize_cbor likewise *)
+
+  Theorem no_internal_error : forall fuel t b, clean (from_cbor dec enc env fuel t b).
+  Proof.
+    induction fuel as [|f IH]; intros t b; [exact I|].
+    destruct t; cbn [from_cbor].
+    all: try (apply bind_clean; [apply dec_clean|]; intros p).
+    - destruct p; exact I.
+    - destruct p; try exact I. destruct (z <? 0); exact I.
+    - destruct p; exact I.
+    - destruct p; exact I.
+    - destruct p; exact I.
+    - exact I.
+    - destruct p; try exact I. destruct (find _ tbl) as [[n z']|]; exact I.
+    - apply bind_clean; [|intros r; exact I]. apply first_ok_clean.
+      apply Forall_forall. intros g Hg. apply in_map_iff in Hg. destruct Hg as (a & <- & _). apply IH.
+    - destruct p; try exact I. apply bind_clean; [|intros; exact I]. apply mapM_clean. intros [k v]. cbn [fst snd].
+      destruct (lookup_id m k) as [[[i n] t']|]; [|exact I].
+      apply bind_clean; [apply ensure_clean, enc_clean|]. intros c. apply bind_clean; [apply IH|]. intros; exact I.
+    - destruct p; try exact I. destruct l as [|k [|v [|? ?]]]; try exact I.
+      destruct (lookup_id m k) as [[[i n] t']|]; [|exact I].
+      apply bind_clean; [apply ensure_clean, enc_clean|]. intros c. apply bind_clean; [apply IH|]. intros; exact I.
+    - destruct p; try exact I. apply bind_clean; [|intros; exact I]. apply mapM_clean. intros x.
+      apply bind_clean; [apply ensure_clean, enc_clean|]. intros c. apply IH.
+    - destruct p; exact I.
+    - destruct p as [| | | | | | |tg pv|]; try exact I. destruct (tg =? n); [|exact I].
+      apply bind_clean; [apply enc_clean|]. intros c. apply bind_clean; [apply IH|]. intros; exact I.
+    - apply IH.
+    - destruct (env name); [apply IH | exact I].
+  Qed.
+End Clean.
+Print Assumptions no_internal_error.
 
 (* a cyclic toy grammar: sequences of [code, arg] with run-sequence nesting *)
 Definition cond : ty := TKVTuple [(14, "abort", TUint)].
